@@ -504,7 +504,7 @@ def m_path(rng, env, seed, kind=None):
     p = seed['path']
     parts = p.split('/')
     kind = kind or rng.choice(['depth_less', 'depth_more', 'unknown_first', 'double_slash', 'query', 'long', 'nonascii', 'other_service', 'root', 'star',
-                       'absolute_uri', 'dots', 'get_on_post_path', 'post_on_get_path', 'query_only', 'query_only'])
+                       'absolute_uri', 'dots', 'get_on_post_path', 'post_on_get_path', 'query_only', 'query_only', 'control_char'])
     method = seed['method']
     xml = seed['xml']
     if kind == 'depth_less':
@@ -532,6 +532,10 @@ def m_path(rng, env, seed, kind=None):
         p = 'http://127.0.0.1:50001' + p
     elif kind == 'dots':
         p = '/../' + p
+    elif kind == 'control_char':
+        # (bytes of the request line are decoded as latin-1 by http.server: control characters end up in the path elements)
+        bad = rng.choice(['\x01', '\x0b', '\x1f', '\x08x', 'a\x7f\x02'])
+        p = '/'.join(parts[:2] + [rng.choice(['Se' + bad + 't', bad, 'Get' + bad])]) if rng.random() < 0.7 else '/' + bad + p
     elif kind == 'query_only':
         p = rng.choice(['?wsdl', '?' + p[1:], '#x', '?'])
         if rng.random() < 0.5:
@@ -1003,6 +1007,13 @@ def run_case(env: Env, ctx, role, raw, info, seed_name):
     for m in mw:
         if m['exc'] is not None:
             func, exn = classify_inner(m['exc'])
+            if exn == 'ValueError' and 'In Fault.Reason' in str(m['exc']):
+                ctx.witness('soap.fault_reason_not_xml_compatible',
+                            'the text of the SOAP fault (it quotes the request path) contains characters that cannot be serialised as XML: building the fault '
+                            'raises inside do_post, the request is answered with a bare 500 without fault',
+                            {**detail, 'exception': repr(m['exc'])[-300:]})
+                outcome.append('mw_escape')
+                continue
             ctx.witness(f'soap.exception_past_middleware.{m["kind"]}.{func}.{exn}',
                         f'{exn} raised in {func} left MessageConverterMiddleware.do_{m["kind"]} (answered with a bare 500 without SOAP fault)',
                         {**detail, 'exception': repr(m['exc'])[:300]})
@@ -1148,7 +1159,8 @@ def _directed(env, rng):
         del post[k]
     gets = [s for s in env.seeds if s['method'] == 'GET'][:1]
     for s in list(post.values()) + gets:
-        for k in ('query_only', 'query_only', 'query_only', 'unknown_first', 'root', 'star', 'depth_less', 'other_service'):
+        for k in ('query_only', 'query_only', 'query_only', 'unknown_first', 'root', 'star', 'depth_less', 'other_service', 'control_char', 'control_char',
+                  'control_char'):
             out.append((s, lambda r, e, sd, k=k: m_path(r, e, sd, k)))
     for s in env.seeds:
         out.append((s, m_valid))
